@@ -129,7 +129,9 @@ def _validate_dict_match(
         if key
     }
 
-    if not last_applied_value:
+    if not last_applied_value or not isinstance(last_applied_value, dict):
+        # Nothing usable was recorded here (absent, or recorded for an earlier
+        # target in which this was not an object).
         last_applied_value = {}
 
     for target_key in target_keys:
@@ -210,6 +212,10 @@ def _validate_list_match(
                 f"<length mismatch target:{len(target)}, actual:{len(actual)}"
             ],
         )
+
+    if not isinstance(last_applied_value, (list, tuple)):
+        # Recorded for an earlier target in which this was not an array.
+        last_applied_value = None
 
     if last_applied_value:
         last_applied_len = len(last_applied_value)
